@@ -73,5 +73,15 @@ class Prop(PropBase):
                 data = G.malformed(rng)
                 tag = "random:malformed"
             cs.append(Case("I " + G.chunkings(rng, data, ("whole", "random")[i % 2]), cfgs=["C20"], tag=tag))
+        # streams of items (long parameter lists included) and malformed bytes cut into deliveries at random, empty
+        # deliveries included, also from a channel that completes reads synchronously: every abstract key reported must
+        # carry a sequence that was actually sent (faithfulness oracle)
+        for i in range(3000 if tier == "quick" else 60000):
+            if i % 3:
+                data = b"".join(G.item_bytes(it) for it in G.random_items(rng, rng.randrange(1, 12)))
+            else:
+                data = b"".join(rng.choice([G.item_bytes(G.random_item(rng)), G.malformed(rng, 10)]) for _ in range(rng.randrange(1, 6)))
+            run = G.chunkings(rng, data, "random")
+            cs.append(Case("I " + rng.choice(["", "", "!", "!!"]) + run, cfgs=["C20"], tag="partitioned-streams"))
         cs += G.numeric_sweep("C20")
         return cs
